@@ -38,7 +38,7 @@ m = {
  },
  "engines": [{"name": "pv", "path": "harness", "serves_properties": sorted(checks), "kind_free_text": "Rust crate: proptest-driven constructive generators (task-program language, DAG op sequences), from-scratch evaluator, shadow dependency record, trace acceptors, instrumented resource/checkers/tracker, own shrink loop, JSON replay files"}],
  "checks": [],
- "notes": "Known findings are listed in known_findings.json (C03-F1, C05-F1, C08-F1/F2, C19-F1/F2, C20-F1..F5); fix: commits in /repo: b2681e4 (D1 add_edge order), dffaa25 (D3 reserved edge after abort), 267eae4 (D4 directory hash), 148a41c (D2 is_build_end). See DESIGN.md.",
+ "notes": "Known findings are listed in known_findings.json (C03-F1, C05-F1, C08-F1/F2, C19-F1/F2, C20-F1..F6); fix: commits in /repo: b2681e4 (D1 add_edge order), dffaa25 (D3 reserved edge after abort), 267eae4 (D4 directory hash), 148a41c (D2 is_build_end). See DESIGN.md.",
  "not_applicable": [],
 }
 for p in all_props:
